@@ -17,7 +17,10 @@ ev    := `o:<conn>` open | `h:<conn>` control handshake, auth ok | `f:<conn>` co
          `k:<conn>` KickOldControlConnection(client, conn) (duplicate-login eviction of the node's other connection) |
          `x:<node>` session manager shutdown |
          `q:<node>.<client>` FindClientNode starts on that node: its index read happens now | `r:<node>.<client>` it
-         continues: record read and answer (flag ok = it answered a connection)
+         continues: record read and answer (flag ok = it answered a connection) |
+         `y:<node>.<client>` SendHTTPProxyRequest for the client starts on that node: the node-local registry is read now |
+         `z:<node>.<client>` it continues: FindClientNode, decision (flag ok = it was sent on the node's own connection) |
+         `m:` / `n:` the same for SendCommandToClient
 conn  := `<node>.<client>.<serial>`
 obs   := one token per event: `<ok|er>|<x>=<ans>/<route>/<state>,…(one per node)…;<x>=…`   (ok = the entry point returned nil; for `d:`/`s:`: the call closed the connection)
 ans   := `-` not connected | `inv` invalid client id | `bad` decode error | `<node>@<conn>`
@@ -60,6 +63,22 @@ def parseEv (tok : String) : Option Ev :=
   | ["q", a] =>
     match a.splitOn "." with
     | [j, x] => do let j ← j.toNat?; let x ← x.toNat?; pure (.lookBegin j x)
+    | _ => none
+  | ["y", a] =>
+    match a.splitOn "." with
+    | [j, x] => do let j ← j.toNat?; let x ← x.toNat?; pure (.reqBegin .http j x)
+    | _ => none
+  | ["z", a] =>
+    match a.splitOn "." with
+    | [j, x] => do let j ← j.toNat?; let x ← x.toNat?; pure (.reqEnd .http j x)
+    | _ => none
+  | ["m", a] =>
+    match a.splitOn "." with
+    | [j, x] => do let j ← j.toNat?; let x ← x.toNat?; pure (.reqBegin .cmd j x)
+    | _ => none
+  | ["n", a] =>
+    match a.splitOn "." with
+    | [j, x] => do let j ← j.toNat?; let x ← x.toNat?; pure (.reqEnd .cmd j x)
     | _ => none
   | ["r", a] =>
     match a.splitOn "." with
